@@ -116,6 +116,7 @@ func genC13(w *out.W, tier string, mu *sync.Mutex) []job {
 			}
 		}
 	}
+	jobs = append(jobs, genC13Crash(w, tier)...)
 	return jobs
 }
 
